@@ -152,7 +152,9 @@ func (g *gen) propVal(self int, depth int) Val {
 		}
 	case 7:
 		if depth < 2 {
-			return Val{Kind: "obj", Obj: g.obj(self, depth+1, false)}
+			// nested objects may inherit too (only from types without bases of
+			// their own, so that no key can arrive twice)
+			return Val{Kind: "obj", Obj: g.obj(self, depth+1, g.chance(1, 3, "nestedAllOf"))}
 		}
 	case 8:
 		return Val{Kind: "int", Int: g.num(), Optional: true}
@@ -175,6 +177,10 @@ func (g *gen) obj(self int, depth int, allowAllOf bool) *Obj {
 			}
 		}
 		switch {
+		case depth > 0:
+			if len(leaf) >= 1 {
+				o.AllOf = []string{leaf[g.intn(len(leaf), "nb")].name}
+			}
 		case len(leaf) >= 2 && g.chance(1, 3, "twoBases"):
 			i := g.intn(len(leaf), "b1")
 			j := g.intn(len(leaf)-1, "b2")
@@ -556,6 +562,14 @@ func GenDoc(t *rapid.T, o GenOpts) *Doc {
 			// a macro that only pastes an earlier macro of the same target (nesting)
 			if prev := g.macroFor(m.target); prev != nil && prev.maxUses >= 3 && g.chance(1, 3, "mnest") {
 				md.Children = append([]*Dir{g.paste(prev)}, md.Children...)
+				if m.target == "responses" && g.chance(1, 2, "mnestTwice") {
+					// the same (or another) inner macro once more: response codes may repeat
+					if p2 := g.macroFor(m.target); p2 != nil {
+						// directly after the first PASTE: after a response it would be
+						// adopted by that response
+						md.Children = append([]*Dir{md.Children[0], g.paste(p2)}, md.Children[1:]...)
+					}
+				}
 				if m.target != "responses" {
 					// singleton children (Body, BaseUrl, Description, ...): the nested
 					// paste replaces the macro's own children
@@ -660,12 +674,12 @@ func GenDoc(t *rapid.T, o GenOpts) *Doc {
 				}
 				if g.chance(2, 3, "rpcParams") {
 					p := g.newDir("Params")
-					p.Schema = g.objSchema(false)
+					p.Schema = g.objSchema(true)
 					m.Children = append(m.Children, p)
 				}
 				if g.chance(1, 2, "rpcResult") {
 					p := g.newDir("Result")
-					p.Schema = g.objSchema(false)
+					p.Schema = g.objSchema(true)
 					m.Children = append(m.Children, p)
 				}
 				if len(g.tags) > 0 && g.chance(1, 3, "rpcTags") {
